@@ -418,7 +418,7 @@ pub fn run(ctx: &Ctx) -> i32 {
                 history(which, &p, &mut rng, 40, &mg, &mut st, "corpus_game");
             }
         }
-        while st.evals < per_worker && !ctx.out_of_time() {
+        while st.evals < per_worker && !ctx.past(if which == Which::C17 { 0.75 } else { 1.0 }) {
             match rng.below(100) {
                 0..=3 => {
                     let n = rng.range(20, 300) as usize;
@@ -454,7 +454,7 @@ pub fn run(ctx: &Ctx) -> i32 {
             // second half: event log of real searches
             let mut done = 0;
             let mut i = w;
-            while done < qsearches && !ctx.out_of_time() {
+            while done < qsearches && (done < 2 || !ctx.out_of_time()) {
                 let p = if i < gen::CORPUS.len() {
                     gen::corpus_pos(i)
                 } else {
